@@ -1,10 +1,12 @@
 use vcommon::ctx::Ctx;
 
 pub mod c14;
+pub mod c18;
 
 pub fn dispatch(prop: &str, ctx: Ctx) -> ! {
     match prop {
         "C14" => c14::run(ctx),
+        "C18" => c18::run(ctx),
         other => {
             eprintln!("harness error: unknown property {other:?}");
             std::process::exit(2)
